@@ -86,10 +86,20 @@ def apply_impl(sim, op):
     raise ValueError(op)
 
 
-def impl_toy_trace(spec, ops, getters=True):
+def impl_toy_trace(spec, ops, getters=True, other=None):
+    """other: spec of a second, unrelated live simulation that is stepped between the operations of the
+    observed one (simulations are independent objects: it must never influence the trace)"""
     sim = make_toy(spec)
+    sim2 = make_toy(other) if other else None
     out = [[[], obs_toy(sim, getters)]]
     for op in ops:
+        if sim2 is not None:
+            try:
+                if not sim2.is_done():
+                    sim2.step()
+                sim2.get_register_representations()
+            except Exception:
+                pass
         try:
             o = apply_impl(sim, op)
         except Exception as e:      # foreign exception
